@@ -350,6 +350,199 @@ def _concat(fnorm, node, e, left_path, right_forms):
     return attr_path(e.left) == left_path and fnorm.norm(node, e.right) in right_forms
 
 
+# ------------------------------------------- abstract execution (rule C15.9)
+# Abstract values: IN (the input: bytes that start with the class's BASE_STRING, no alleged prefix),
+# CUT (a proper part of the input), ("c", v) a known constant, UNK.
+IN, CUT, UNK = ("in",), ("cut",), ("?",)
+_TYPES = {"bytes": bytes, "str": str, "int": int, "bool": bool}
+
+
+def _const(v):
+    try:
+        hash(v)
+    except TypeError:
+        return UNK
+    return ("c", v)
+
+
+def _truth(v):
+    """True / False / None (not known) for an abstract value."""
+    if v == IN:
+        return True                      # starts with a non-empty BASE_STRING
+    if v[0] == "c":
+        return bool(v[1])
+    return None
+
+
+def _aeval(e, env, F, module, base, defaults):
+    def ev(x):
+        return _aeval(x, env, F, module, base, defaults)
+    if isinstance(e, ast.Constant):
+        return _const(e.value)
+    if isinstance(e, ast.Name):
+        if e.id in env:
+            return env[e.id]
+        if e.id in defaults:
+            return defaults[e.id]
+    elif isinstance(e, ast.UnaryOp) and isinstance(e.op, ast.Not):
+        t = _truth(ev(e.operand))
+        return UNK if t is None else ("c", not t)
+    elif isinstance(e, ast.BoolOp):
+        last = UNK
+        for x in e.values:
+            last = ev(x)
+            t = _truth(last)
+            if t is None:
+                return UNK
+            if t != isinstance(e.op, ast.And):
+                return last
+        return last
+    elif isinstance(e, ast.IfExp):
+        t = _truth(ev(e.test))
+        return UNK if t is None else ev(e.body if t else e.orelse)
+    elif isinstance(e, ast.Compare) and len(e.ops) == 1:
+        a, b = ev(e.left), ev(e.comparators[0])
+        if a[0] == "c" and b[0] == "c":
+            op = e.ops[0]
+            if isinstance(op, (ast.Eq, ast.NotEq)):
+                return ("c", (a[1] == b[1]) == isinstance(op, ast.Eq))
+            if isinstance(op, (ast.Is, ast.IsNot)) and (a[1] is None or b[1] is None):
+                return ("c", (a[1] is b[1]) == isinstance(op, ast.Is))
+        return UNK
+    elif isinstance(e, ast.Subscript):
+        v = ev(e.value)
+        if v in (IN, CUT):
+            s = e.slice
+            if isinstance(s, ast.Slice) and s.upper is None and s.step is None and (
+                    s.lower is None or ev(s.lower) == ("c", 0)):
+                return v
+            return CUT
+        return UNK
+    elif isinstance(e, ast.Call) and not e.keywords:
+        if isinstance(e.func, ast.Name) and e.func.id == "isinstance" and len(e.args) == 2 and "isinstance" not in env:
+            v = ev(e.args[0])
+            ts = e.args[1].elts if isinstance(e.args[1], ast.Tuple) else [e.args[1]]
+            if all(isinstance(t, ast.Name) and t.id in _TYPES and t.id not in env for t in ts):
+                if v in (IN, CUT):
+                    return ("c", any(t.id == "bytes" for t in ts))
+                if v[0] == "c":
+                    return ("c", isinstance(v[1], tuple(_TYPES[t.id] for t in ts)))
+            return UNK
+        if isinstance(e.func, ast.Name) and e.func.id == "bool" and len(e.args) == 1 and "bool" not in env:
+            t = _truth(ev(e.args[0]))
+            return UNK if t is None else ("c", t)
+        if isinstance(e.func, ast.Attribute) and e.func.attr == "startswith" and len(e.args) == 1:
+            v, p = ev(e.func.value), ev(e.args[0])
+            if v == IN and p[0] == "c":
+                ps = p[1] if isinstance(p[1], tuple) else (p[1],)
+                if not all(isinstance(x, bytes) for x in ps):
+                    return UNK
+                if any(base.startswith(x) for x in ps):
+                    return ("c", True)
+                if any(x.startswith(base) for x in ps):
+                    return UNK              # depends on the bytes after BASE_STRING
+                return ("c", False)
+            return UNK
+        if isinstance(e.func, ast.Name) and e.func.id == "len" and len(e.args) == 1 and "len" not in env:
+            v = ev(e.args[0])
+            if v[0] == "c" and isinstance(v[1], (bytes, str, tuple)):
+                return ("c", len(v[1]))
+            return UNK
+    try:
+        return _const(F.fold(e, module, None))
+    except Exception:
+        return UNK
+
+
+def _abstract_run(idx, F, fn, cfg, base):
+    """Execute fn's CFG on (first parameter = IN, other parameters = their defaults).  'exc' edges are not followed
+    (the scenario is a well-formed cap: the only outcomes of interest are returns and explicit raises).
+    -> ([(node, what, argument value, exact, witness)], number of product states); `exact` = every test on the
+    path had a known outcome, so this input certainly takes it."""
+    a = fn.node.args
+    pos = list(a.posonlyargs) + list(a.args)
+    if not pos:
+        raise AnchorVanished("%s has no positional parameter" % fn.qual)
+    defaults = {}
+    for p, d in zip(pos[len(pos) - len(a.defaults):], a.defaults):
+        defaults[p.arg] = _aeval(d, {}, F, fn.module, base, {})
+    for p, d in zip(a.kwonlyargs, a.kw_defaults):
+        if d is not None:
+            defaults[p.arg] = _aeval(d, {}, F, fn.module, base, {})
+    for p in pos[1:] + list(a.kwonlyargs):
+        defaults.setdefault(p.arg, UNK)
+    if a.vararg:
+        defaults[a.vararg.arg] = ("c", ())
+    if a.kwarg:
+        defaults[a.kwarg.arg] = UNK
+    env0 = dict(defaults)
+    env0[pos[0].arg] = IN
+
+    def freeze(env, exact):
+        return (tuple(sorted(env.items())), exact)
+
+    def transfer(n, lab, nxt, state):
+        if lab == "exc":
+            return None
+        items, exact = state
+        env = dict(items)
+        if n.kind == "test":
+            t = _truth(_aeval(n.ast, env, F, fn.module, base, {}))
+            if isinstance(lab, tuple) and lab[0] in ("T", "F"):
+                if t is None:
+                    return freeze(env, False)
+                return state if (lab[0] == "T") == t else None
+            return freeze(env, False)
+        if n.kind == "stmt" and isinstance(n.ast, (ast.Return, ast.Raise)):
+            return None
+        if n.kind == "stmt" and isinstance(n.ast, ast.Assign):
+            v = _aeval(n.ast.value, env, F, fn.module, base, {})
+            for t in n.ast.targets:
+                if isinstance(t, ast.Name):
+                    env[t.id] = v
+                else:
+                    for x in ast.walk(t):
+                        if isinstance(x, ast.Name) and isinstance(x.ctx, ast.Store):
+                            env[x.id] = UNK
+            return freeze(env, exact)
+        if n.kind == "stmt" and isinstance(n.ast, ast.AnnAssign) and isinstance(n.ast.target, ast.Name) \
+                and n.ast.value is not None:
+            env[n.ast.target.id] = _aeval(n.ast.value, env, F, fn.module, base, {})
+            return freeze(env, exact)
+        for s in node_stores(n):
+            if "." not in s and not s.endswith("[]"):
+                env[s] = UNK
+        if n.kind == "iter":
+            exact = False
+        return freeze(env, exact)
+
+    init = freeze(env0, True)
+    visited, parent = explore(cfg, init, transfer)
+    out = []
+    for (i, st) in sorted(visited, key=lambda x: (x[0], not x[1][1])):
+        n = cfg.nodes[i]
+        if n.kind != "stmt" or not isinstance(n.ast, (ast.Return, ast.Raise)):
+            continue
+        env, exact = dict(st[0]), st[1]
+        what, argv = ("other",), UNK
+        if isinstance(n.ast, ast.Raise):
+            what = ("raise",)
+        else:
+            v = n.ast.value
+            if isinstance(v, ast.Call) and call_tail(v) == "init_from_string" and isinstance(v.func, ast.Attribute):
+                k = idx.resolve_expr(fn.module, v.func.value)
+                if isinstance(k, ClassInfo):
+                    what = ("parse", k.qual)
+                    a0 = arg(v, 0, "uri")
+                    argv = _aeval(a0, env, F, fn.module, base, {}) if a0 is not None else UNK
+        out.append((n, what, argv, exact, witness(cfg, parent, (i, st))))
+    return out, len(visited)
+
+
+def _outcome_text(fn, o):
+    return "`%s`" % src(fn, o[0].ast)[:70]
+
+
 # --------------------------------------------------------------------- run
 def run(ctx: Context):
     idx = ctx.idx
@@ -438,7 +631,7 @@ def run(ctx: Context):
     numeric = []
     with ctx.rule("C15.4", "R5", "regex groups, decoders, constructor parameters, stored fields, encoders and the "
                   "to_string template agree position by position; base32 groups are canonical with the field's byte length",
-                  expected=9) as r:
+                  expected=27) as r:
         for ci in files:
             r.site(ci.qual)
             loc = _cls_loc(ci, "STRING_RE")
@@ -459,6 +652,10 @@ def run(ctx: Context):
             if not trets:
                 raise AnchorVanished("%s.to_string has no return" % ci.qual)
             init = ci.lookup("__init__")
+            if init is None:
+                raise AnchorVanished("%s.__init__" % ci.qual)
+            r.site(ts, None, "template")
+            r.site(init, None, "stored fields")
             iparams = first_positional_params(init)
             idefs = def_exprs(init)
             # parser side: group index -> (decoder, ctor parameter)
@@ -793,3 +990,31 @@ def run(ctx: Context):
                         r.require(ok, fn, fn.loc(n.ast), "%s: a string that does not match does not raise BadURIError" % short(fn))
             if not found:
                 r.violation(fn, fn.loc(), "%s never tests the match object" % short(fn))
+
+    # -- 9. the unprefixed cap of every kind reaches its own parser -------
+    with ctx.rule("C15.9", "R3", "from_string called with only the cap string (options at their defaults) on a string "
+                  "that starts with a class's BASE_STRING and carries no 'ro.'/'imm.' prefix ends in that class's "
+                  "init_from_string applied to the unmodified input (abstract execution of the CFG per cap class)",
+                  expected=18) as r:
+        fn = idx.func("uri:from_string")
+        cfg = fn.cfg()
+        all_classes = {c.qual: c for c in files + dirs}
+        for q, k in sorted(all_classes.items()):
+            base = _fold_bytes(F, k, "BASE_STRING")
+            r.site(fn, None, k.name)
+            outcomes, nstates = _abstract_run(idx, F, fn, cfg, base)
+            r.count(nstates)
+            own = [o for o in outcomes if o[1] == ("parse", q)]
+            if not own:
+                others = sorted({_outcome_text(fn, o) for o in outcomes if o[3]})
+                r.violation(q, fn.loc(), "from_string(%s cap, options at their defaults) cannot reach %s.init_from_string: "
+                            "what %s.to_string() produces does not parse back as this kind%s" % (
+                                k.name, k.name, k.name, (" (it ends in %s)" % "; ".join(others)) if others else ""))
+                continue
+            for (n, what, argv, exact, w) in outcomes:
+                if what == ("parse", q):
+                    r.require(argv not in (CUT, ) and argv[0] != "c", q, fn.loc(n.ast),
+                              "from_string hands %s.init_from_string a modified copy of an unprefixed input" % k.name, w)
+                elif exact:
+                    r.violation(q, fn.loc(n.ast), "from_string(%s cap, options at their defaults) ends in %s, not in "
+                                "%s.init_from_string" % (k.name, _outcome_text(fn, (n, what, argv, exact, w)), k.name), w)
